@@ -73,6 +73,9 @@ def run(ctx):
     # factor per pair and nothing short-circuits it (shared with C15.5)
     from . import c15
     c15.c15_5(ctx, R="C05.5")
+    # the per-opcode signature lists handed to make_aggsig_final_message by callers are the owned copies: field-by-field (shared C01.8)
+    from . import c01_owned
+    c01_owned.run(ctx, R="C05.2")
 
 
 def c05_1(ctx):
